@@ -226,12 +226,16 @@ func runC13(c *Ctx) {
 						continue
 					}
 					w := p.Index().Info[e.Fn]
+					// directly, or through a wrapper that does not emit
+					writes := func(key string) bool {
+						return hasDirectWrite(w, key) || (w != nil && !eg.MayEmit[e.Fn] && w.TWrites[key])
+					}
 					switch {
-					case hasDirectWrite(w, "pokerface.Status.Pots"):
+					case writes("pokerface.Status.Pots"):
 						iPots = i
-					case hasDirectWrite(w, "pokerface.PlayerState.Pot"):
+					case writes("pokerface.PlayerState.Pot"):
 						iPlayers = i
-					case hasDirectWrite(w, "pokerface.Status.CurrentRoundPot"):
+					case writes("pokerface.Status.CurrentRoundPot"):
 						iRound = i
 					case eg.MayEmit[e.Fn]:
 						if iEnter < 0 {
